@@ -28,7 +28,10 @@
 (* deeply (stored and returned dicts own their lists) -- equivalent to no  *)
 (* memo at all; SharedNested = TRUE: dict(d) copies, the nested lists are  *)
 (* shared between the memo and every result (the seeded change             *)
-(* C13-seedB).                                                             *)
+(* C13-seedB).  DeepStore = TRUE (with SharedNested): the entry is stored  *)
+(* as a deep copy, so the FIRST result is independent, but every hit       *)
+(* shares with the memo -- the edit that poisons it is made to a later     *)
+(* result (a history of three parses).                                     *)
 (*                                                                         *)
 (* Invariants:                                                             *)
 (*   MemoTransparent  every Parse result equals the reference Parse of its *)
@@ -37,7 +40,9 @@
 (*   MemoSound        what is remembered is the reference parse            *)
 (* Negative control (tried; c13.py re-runs it in every check):             *)
 (*   SharedNested = TRUE -> MemoTransparent violated (parse, caller        *)
-(*   appends to the returned arch list, parse the same text again).        *)
+(*   appends to the returned arch list, parse the same text again);        *)
+(*   SharedNested = DeepStore = TRUE -> MemoTransparent violated (parse,   *)
+(*   parse, caller edits the second result, parse).                        *)
 (* Binding: c13.py replays exactly this history shape on the real class    *)
 (* after every round trip (edit the returned structure in place, parse the *)
 (* same string again, parse another string that shares an alternative) and *)
@@ -47,6 +52,7 @@
 EXTENDS PkgRelation
 
 CONSTANTS SharedNested,          \* TRUE: results share nested lists with the memo
+          DeepStore,             \* TRUE: ... but only the results of hits do
           MaxCalls, MaxEdits     \* history bounds
 
 VARIABLES heap, memo, held, ret, ncalls, nedits
@@ -88,7 +94,8 @@ ParseCall(t) ==
            /\ ret'  = [text |-> t, val |-> Deref(c.heap, c.obj)]
            /\ UNCHANGED memo
       ELSE LET d == Alloc(heap, Reference(t))                   \* miss: d is what the caller gets
-               s == Copy(d.heap, d.obj)                         \* what is stored
+               s == IF DeepStore THEN Alloc(d.heap, Deref(d.heap, d.obj))    \* what is stored
+                    ELSE Copy(d.heap, d.obj)
            IN /\ heap' = s.heap
               /\ memo' = [memo EXCEPT ![t] = [some |-> TRUE, obj |-> s.obj]]
               /\ held' = Append(held, d.obj)
